@@ -888,30 +888,7 @@ impl Database {
             let mut file_manager_guard = self.shared.file_manager.write();
             let file_manager = file_manager_guard.as_mut().unwrap();
 
-            if file_manager.index_exists(schema_name, table_name, index_name) {
-                let index_storage_arc =
-                    file_manager.index_data_mut(schema_name, table_name, index_name)?;
-                let mut index_storage = index_storage_arc.write();
-                let root_page = {
-                    use crate::storage::IndexFileHeader;
-                    let page = index_storage.page(0)?;
-                    IndexFileHeader::from_bytes(page)?.root_page()
-                };
-                let index_btree = BTree::new(&mut *index_storage, root_page)?;
-                let mut index_cursor = index_btree.cursor_first()?;
-
-                let mut keys_to_delete: Vec<Vec<u8>> = Vec::new();
-                while index_cursor.valid() {
-                    keys_to_delete.push(index_cursor.key()?.to_vec());
-                    index_cursor.advance()?;
-                }
-
-                let mut index_btree_mut = BTree::new(&mut *index_storage, root_page)?;
-                for key in &keys_to_delete {
-                    index_btree_mut.delete(key)?;
-                }
-                index_storage.sync()?;
-            }
+            file_manager.drop_index(schema_name, table_name, index_name)?;
         }
 
         let old_column_types: Vec<crate::records::types::DataType> =
